@@ -183,14 +183,59 @@ def run_programs(workdir, programs, shards=16):
     return out
 
 
+def _binary_operands(call):
+    return (call[5], call[6]) if call[0] == "fbin" else (call[2], call[3]) if call[0] == "named" else (call[2], call[3])
+
+
+def _small_binary(st, max_nodes):
+    if st[1][0] not in ("fbin", "bin", "named") or not isinstance(st[3], list):
+        return False
+    return all(is_bdd(x) and len(x) <= 1 + 3 * max_nodes for x in _binary_operands(st[1]))
+
+
+def engine_crosscheck(workdir, steps, limit=400, max_nodes=2000):
+    """Cross-checks the two extracted engines of the binary operators on a sample of this run's
+    fbin/bin/named steps: the reference engine (Model/Apply.v) and the fast one (Model/ApplyFast.v, proved
+    equal in Proofs/ApplyFast.v) are both forced on the same transcript lines (BDD_ENGINE=slow|fast) and must
+    print identical results.  Operands above max_nodes nodes are left to the fast engine only."""
+    import subprocess
+    cand = [s for s in steps if _small_binary(s, max_nodes)]
+    if not cand:
+        return 0, 0
+    # the largest operands first (they are the ones served by the fast engine in the normal run), then an even spread
+    cand.sort(key=lambda s: -max(len(x) for x in _binary_operands(s[1])))
+    head = cand[:limit // 4]
+    rest = cand[limit // 4:]
+    stride = max(1, len(rest) // max(1, limit - len(head)))
+    sample = head + rest[::stride][:limit - len(head)]
+    tpath = os.path.join(workdir, "engine_tr.txt")
+    with open(tpath, "w") as f:
+        for (cid, call, impl, model, aux) in sample:
+            f.write(sx_str([cid, call, impl]) + "\n")
+    outs = {}
+    for eng in ("slow", "fast"):
+        env = dict(os.environ)
+        env["BDD_ENGINE"] = eng
+        p = subprocess.run(["sh", "-c", "ulimit -s unlimited 2>/dev/null; exec \"$0\" \"$1\"", DRIVER_BIN, tpath],
+                           env=env, stdout=subprocess.PIPE, stderr=subprocess.PIPE, timeout=3600, text=True)
+        if p.returncode != 0:
+            raise RuntimeError("model driver crashed in the engine cross-check (%s): %s" % (eng, p.stderr[-2000:]))
+        outs[eng] = [sx_parse(l)[1] for l in p.stdout.splitlines() if l]
+    if len(outs["slow"]) != len(sample) or len(outs["fast"]) != len(sample):
+        raise RuntimeError("engine cross-check: driver printed %d/%d lines for %d steps" % (len(outs["slow"]), len(outs["fast"]), len(sample)))
+    agree = sum(1 for a, b, st in zip(outs["slow"], outs["fast"], sample) if a == b == st[3])
+    return len(sample), agree
+
+
 def vm_crosscheck(workdir, steps, limit=40):
-    """Validates extraction against kernel evaluation: re-evaluates a sample of fbin steps with
-    vm_compute inside coqc and compares with the extracted binary's answers."""
-    sample = [s for s in steps if s[1][0] in ("fbin", "bin", "named") and isinstance(s[3], list)][:limit]
+    """Validates extraction against kernel evaluation: re-evaluates a sample of fbin/bin/named steps (small
+    operands) with vm_compute inside coqc, with the reference engine and with the fast engine, and compares
+    both with the extracted binary's answers."""
+    sample = [s for s in steps if _small_binary(s, 300)][:limit]
     if not sample:
         return 0, 0
     lines = ["From Coq Require Import List NArith. Import ListNotations.",
-             "From BddVerif Require Import Model.Bdd Model.Apply.", "Open Scope N_scope.",
+             "From BddVerif Require Import Model.Bdd Model.Apply Model.ApplyFast.", "Open Scope N_scope.",
              "Definition show (o : outcome bdd) : list (N * N * N) := match o with Ok r => map (fun n => (nvar n, nlow n, nhigh n)) r | _ => [] end."]
 
     def coq_bdd(x):
@@ -204,24 +249,32 @@ def vm_crosscheck(workdir, steps, limit=40):
 
     named = {"and": "op_and", "or": "op_or", "imp": "op_imp", "iff": "op_iff", "xor": "op_xor", "and_not": "op_and_not"}
     for (cid, call, impl, model, aux) in sample:
-        if call[0] == "fbin":
-            t, fa, fb, fo, a, b = call[1:7]
-            lines.append("Eval vm_compute in show (fused_binary_flip_op %s %s %s %s %s %s)." % (coq_bdd(a), coq_bdd(b), coq_ov(fa), coq_ov(fb), coq_ov(fo), coq_tab(t)))
-        elif call[0] == "bin":
-            t, a, b = call[1:4]
-            lines.append("Eval vm_compute in show (binary_op %s %s %s)." % (coq_bdd(a), coq_bdd(b), coq_tab(t)))
-        else:
-            lines.append("Eval vm_compute in show (binary_op %s %s %s)." % (coq_bdd(call[2]), coq_bdd(call[3]), named[call[1]]))
+        for sfx in ("", "_fast"):
+            if call[0] == "fbin":
+                t, fa, fb, fo, a, b = call[1:7]
+                lines.append("Eval vm_compute in show (fused_binary_flip_op%s %s %s %s %s %s %s)." % (sfx, coq_bdd(a), coq_bdd(b), coq_ov(fa), coq_ov(fb), coq_ov(fo), coq_tab(t)))
+            elif call[0] == "bin":
+                t, a, b = call[1:4]
+                lines.append("Eval vm_compute in show (binary_op%s %s %s %s)." % (sfx, coq_bdd(a), coq_bdd(b), coq_tab(t)))
+            else:
+                lines.append("Eval vm_compute in show (binary_op%s %s %s %s)." % (sfx, coq_bdd(call[2]), coq_bdd(call[3]), named[call[1]]))
     path = os.path.join(workdir, "cases.v")
     open(path, "w").write("\n".join(lines) + "\n")
     rc, out, err = run_cmd(["timeout", "600", "coqc", "-noglob", "-Q", COQ_DIR, "BddVerif", path], cwd=workdir, timeout=700)
     if rc != 0:
         raise RuntimeError("vm_compute cross-check failed to compile: " + (out + err)[-2000:])
     vals = re.findall(r"=\s*(\[.*?\])\s*:\s*list", out, flags=re.S)
+    if len(vals) != 2 * len(sample):
+        raise RuntimeError("vm_compute cross-check: %d answers for %d evaluations" % (len(vals), 2 * len(sample)))
+
+    def triples(v):
+        return [tuple(int(x) for x in re.findall(r"\d+", t)) for t in re.findall(r"\(([^()]*)\)", v)]
+
     agree = 0
-    for (cid, call, impl, model, aux), v in zip(sample, vals):
-        triples = [tuple(int(x) for x in re.findall(r"\d+", t)) for t in re.findall(r"\(([^()]*)\)", v)]
-        if triples == bdd_nodes(model):
+    for i, (cid, call, impl, model, aux) in enumerate(sample):
+        mb = unwrap_bdd(model)
+        want = bdd_nodes(mb) if mb is not None else []
+        if triples(vals[2 * i]) == want and triples(vals[2 * i + 1]) == want:
             agree += 1
     return len(sample), agree
 
@@ -269,7 +322,7 @@ def write_replay(pid, n, payload):
     return path
 
 
-def finish(v, coq, t0, rule, exhaustive=False, extra=None, cross=(0, 0)):
+def finish(v, coq, t0, rule, exhaustive=False, extra=None, cross=(0, 0), engines=(0, 0)):
     """prints VIOLATION / KNOWN-FINDING lines, writes the evidence file, returns exit code"""
     exit_code = 0
     nviol = 0
@@ -314,6 +367,7 @@ def finish(v, coq, t0, rule, exhaustive=False, extra=None, cross=(0, 0)):
         "skipped_steps": v.skipped,
         "exhaustive": exhaustive,
         "vm_compute_crosscheck": {"cases": cross[0], "agree": cross[1]},
+        "engine_crosscheck_fast_vs_reference": {"cases": engines[0], "agree": engines[1]},
         "notes": v.notes,
     }
     if extra:
